@@ -182,7 +182,9 @@ class H2Protocol:
             else:
                 self.priority.block(stream_id)
 
-            if self.stream_buffers[stream_id].complete:
+            if self.stream_buffers[stream_id].complete and not self.closed:
+                # (A connection closed whilst flushing has discarded
+                # what was still buffered, the response did not end.)
                 self.connection.end_stream(stream_id)
                 await self._flush()
                 del self.stream_buffers[stream_id]
